@@ -445,7 +445,11 @@ def explore(rep, br, tier, seed):
     os.makedirs(SCRATCH, exist_ok=True)
     watchdog = float(os.environ.get("C08_WATCHDOG", "20"))
     # ---- proof part: model vs implementation
-    wait_part(rep, rng, tier)
+    try:
+        wait_part(rep, rng, tier)
+    except RuntimeError as ex:
+        # the model / Run file no longer evaluates: a broken correspondence; the exploration below still runs
+        rep.disagree("wait(): case evaluation failed in coqc (Model/WaitModel.v or Run/C08Run.v no longer compiles)", str(ex)[-1500:])
     # ---- exploration part
     t0 = time.time()
     found_all = {}
